@@ -5,36 +5,68 @@
 (*   Perturb(g, t)  one group changed to a token with another value (depth < MaxDepth)           *)
 (*   Reorder(g)     one set/dict-valued group changed to the same value in another insertion     *)
 (*                  order (terminal)                                                             *)
+(*   Mutate*        history dimension (terminal): the object of the current node is compared and *)
+(*                  hashed (warm) or not (cold) and then changed IN PLACE by a public mutator:   *)
+(*                  MutateSet(g, t) setter / add_* / remove_*, MutateMove translate_rotate,      *)
+(*                  MutateFlat convert_to_2d                                                     *)
 (* A state is a node (val) together with the edge that led to it (par -> val, kind, grp).        *)
 (* TLC checks the contract on the explored valuations: ExpectedEq is an equivalence relation,    *)
-(* one perturbation makes it false, a reorder keeps it true, HashKey is a consistent hash.       *)
+(* one perturbation makes it false, a reorder keeps it true, HashKey is a consistent hash, and   *)
+(* - implementation-shaped part - an object that caches its comparison key (ckey) answers with   *)
+(* the key of its CURRENT values after every mutator.  DEV_StaleKeyOnMove = TRUE documents the   *)
+(* design in which only setters invalidate the cached key (seeded change C12-2).                 *)
 EXTENDS EqContract
 
-CONSTANTS MaxDepth
+CONSTANTS MaxDepth,            \* perturbations per path
+          MutDepth,            \* setters are applied to nodes of depth <= MutDepth (moves: to every node)
+          DEV_StaleKeyOnMove   \* deviation: translate_rotate / convert_to_2d keep the cached key
 
-VARIABLES cls, seed, root, par, val, kind, grp, depth
-vars == <<cls, seed, root, par, val, kind, grp, depth>>
+VARIABLES cls, seed, root, par, val, kind, grp, depth,
+          mk,      \* kind of the mutator that led here ("" if none)
+          warm,    \* the object was compared / hashed before it was mutated
+          ckey     \* implementation-shaped: the comparison key the object has cached (<<>> = none)
+vars == <<cls, seed, root, par, val, kind, grp, depth, mk, warm, ckey>>
 
 Init == /\ cls \in Classes
         /\ seed \in {"default", "full"}
         /\ root = (IF seed = "default" THEN SeedDefault(cls) ELSE SeedFull(cls))
         /\ par = root /\ val = root /\ kind = "node" /\ grp = "@" \o seed /\ depth = 0
+        /\ mk = "" /\ warm = FALSE /\ ckey = <<>>
 
-Perturb(g, t) == /\ kind # "reorder" /\ depth < MaxDepth
+Open == kind \in {"node", "perturb"}          \* reorder and mutate are terminal
+NoMut == UNCHANGED <<mk, warm, ckey>>
+
+Perturb(g, t) == /\ Open /\ depth < MaxDepth
                  /\ ~SameValue(t, val[g])
                  /\ par' = val /\ val' = [val EXCEPT ![g] = t]
                  /\ kind' = "perturb" /\ grp' = g /\ depth' = depth + 1
-                 /\ UNCHANGED <<cls, seed, root>>
+                 /\ UNCHANGED <<cls, seed, root>> /\ NoMut
 
-Reorder(g, t) == /\ kind # "reorder"
+Reorder(g, t) == /\ Open
                  /\ t # val[g] /\ SameValue(t, val[g])
                  /\ par' = val /\ val' = [val EXCEPT ![g] = t]
                  /\ kind' = "reorder" /\ grp' = g
+                 /\ UNCHANGED <<cls, seed, root, depth>> /\ NoMut
+
+(* the cached key after a mutator: a warm object holds the key of its old values; the mutator drops it -      *)
+(* unless the deviation keeps it for the mutators that do not go through a setter                             *)
+KeyAfter(w, kept, before) == IF w /\ kept THEN <<DescKey(before)>> ELSE <<>>
+Mutate(m, name, b, w) ==
+                 /\ Open
+                 /\ IsMutation(cls, m, val, b)
+                 /\ par' = val /\ val' = b /\ kind' = "mutate" /\ grp' = name /\ mk' = m /\ warm' = w
+                 /\ ckey' = KeyAfter(w, DEV_StaleKeyOnMove /\ m # "set", Desc(val, MotBefore(m)))
                  /\ UNCHANGED <<cls, seed, root, depth>>
+MutateSet(g, t, w) == depth <= MutDepth /\ Mutate("set", SetName(cls, g, val[g], t), [val EXCEPT ![g] = t], w)
+MutateMove(w) == Mutate("move", "translate_rotate", val, w)
+MutateFlat(w) == Mutate("flat", "convert_to_2d", val, w)
 
 PerturbSome == \E g \in GroupsOf(cls) : \E t \in Dom(cls, g) : Perturb(g, t)
 ReorderSome == \E g \in GroupsOf(cls) : \E t \in Dom(cls, g) : Reorder(g, t)
-Next == PerturbSome \/ ReorderSome
+SetSome     == \E g \in GroupsOf(cls) : \E t \in Dom(cls, g) : \E w \in BOOLEAN : MutateSet(g, t, w)
+MoveSome    == \E w \in BOOLEAN : MutateMove(w)
+FlatSome    == \E w \in BOOLEAN : MutateFlat(w)
+Next == PerturbSome \/ ReorderSome \/ SetSome \/ MoveSome \/ FlatSome
 Spec == Init /\ [][Next]_vars
 
 (* ---- the laws, on every explored node / edge ---- *)
@@ -49,12 +81,30 @@ InvHash        == LawHash(par, val) /\ LawHash(root, val) /\ LawHash(val, val)
 InvThree       == /\ Expected3(cls, par, val) \in {"T", "F", "EITHER"}
                   /\ (Expected3(cls, par, val) = "T") = ExpectedEq(par, val)
                   /\ Expected3(cls, par, val) = Expected3(cls, val, par)
-(* action properties: what the two actions do to the contract *)
+(* history: descriptors before / after the mutator, and what the object answers with *)
+Before   == Desc(par, MotBefore(mk))
+After    == Desc(val, MotAfter(mk))
+ImplKey  == IF ckey = <<>> THEN DescKey(After) ELSE ckey[1]
+InvMutate  == kind = "mutate" => /\ ~ExpectedEqD(cls, Before, After)         \* the mutator changed something ...
+                                 /\ ExpectedEqD(cls, After, After)
+                                 /\ ExpectedEqD(cls, Before, After) = ExpectedEqD(cls, After, Before)
+InvCurrent == kind = "mutate" => ImplKey = DescKey(After)                     \* ... and == / hash follow it
+InvMotion  == \A m \in MutKinds : ExpectedEqD(cls, Desc(val, MotBefore(m)), Desc(val, MotAfter(m)))
+                                  = ~(m # "set" /\ Displaced(cls, m, val))
+(* action properties: what the actions do to the contract *)
 PropPerturb    == [][kind' = "perturb" => ~ExpectedEq(val, val') /\ par' = val]_vars
 PropReorder    == [][kind' = "reorder" => ExpectedEq(val, val') /\ ExpectedEq(root, val) = ExpectedEq(root, val')]_vars
+PropMutate     == [][kind' = "mutate" => par' = val /\ IsMutation(cls, mk', val, val')
+                                         /\ (mk' = "set") = ~ExpectedEq(val, val')]_vars
 
 (* ---- generation: the table once, one case per explored state ---- *)
 ASSUME PrintT(<<"TABLE", ToJson(ClassTable)>>)
+MotRec == [c \in Classes |-> [move |-> MotGroups(c, "move"), flat |-> MotGroups(c, "flat"),
+                              always |-> {g \in GroupsOf(c) : <<c, g>> \in SpatialDefault}]]
+ASSUME PrintT(<<"MOTION", ToJson(MotRec)>>)
+SetRec == [c \in Classes |-> [g \in GroupsOf(c) |->
+             {<<pr[1], pr[2], SetName(c, g, pr[1], pr[2])>> : pr \in SetPairs(c, g)}]]
+ASSUME PrintT(<<"SETTERS", ToJson(SetRec)>>)
 Emit == PrintT(<<"CASE", ToJson([cls |-> cls, x |-> par, y |-> val, kind |-> kind, grp |-> grp, seed |-> seed,
-                                 depth |-> depth])>>)
+                                 depth |-> depth, mk |-> mk, warm |-> IF warm THEN 1 ELSE 0])>>)
 ==============================================================================
